@@ -164,6 +164,14 @@ fn run_case(case: &Value) -> Value {
             if want.contains(&"tree") {
                 out["tree"] = parse_debug(&format!("{a2l:#?}")).unwrap_or_else(|e| json!({"_parse_error": e}));
             }
+            if let Some(t2) = case["text2"].as_str() {
+                // a second document that differs in one token: does == see the difference?
+                out["pair"] = match guarded(|| a2lfile::load_from_string(t2, a2ml.clone(), strict)) {
+                    Ok(Ok((b, _))) => json!({"loads": true, "eq": a2l == b, "eq_rev": b == a2l, "dbg_eq": format!("{a2l:?}") == format!("{b:?}")}),
+                    Ok(Err(e)) => json!({"loads": false, "error": e.to_string()}),
+                    Err(p) => json!({"loads": false, "panic": p}),
+                };
+            }
             if want.contains(&"file") {
                 // A2lFile::write(path, banner) and load(path)
                 let dir = std::env::temp_dir().join(format!("a2lverif_file_{}", std::process::id()));
